@@ -2,6 +2,7 @@ package main
 
 import (
 	"fmt"
+	"math"
 	"math/rand"
 	"reflect"
 	"strings"
@@ -45,10 +46,11 @@ func describe(v reflect.Value) string {
 	case reflect.Struct:
 		return list("R", v.NumField(), v.Field)
 	case reflect.Map:
-		keys := v.MapKeys()
-		ss := make([]string, len(keys))
-		for i, k := range keys {
-			ss[i] = describe(k) + ":" + describe(v.MapIndex(k))
+		// the entries themselves (MapRange), not a lookup per key: an entry whose key is not equal to itself
+		// (a NaN inside the key) is an entry all the same, and a lookup would not find it
+		var ss []string
+		for it := v.MapRange(); it.Next(); {
+			ss = append(ss, describe(it.Key())+":"+describe(it.Value()))
 		}
 		return "M[" + strings.Join(ss, ",") + "]"
 	case reflect.Ptr:
@@ -87,7 +89,9 @@ func randType(r *rand.Rand, depth int) reflect.Type {
 	case 1:
 		return reflect.ArrayOf(r.Intn(4), randType(r, depth-1))
 	case 2:
-		keys := []reflect.Type{reflect.TypeOf(""), reflect.TypeOf(int(0)), reflect.TypeOf(uint8(0)), reflect.TypeOf(uint(0)), reflect.TypeOf(int32(0))}
+		keys := []reflect.Type{reflect.TypeOf(""), reflect.TypeOf(int(0)), reflect.TypeOf(uint8(0)), reflect.TypeOf(uint(0)), reflect.TypeOf(int32(0)),
+			reflect.TypeOf(float64(0)), reflect.TypeOf(float32(0)), reflect.TypeOf(complex128(0)), ifaceType, reflect.TypeOf(false),
+			reflect.TypeOf([2]float64{}), reflect.TypeOf(keyRec{}), reflect.TypeOf(""), reflect.TypeOf(int64(0))}
 		return reflect.MapOf(keys[r.Intn(len(keys))], randType(r, depth-1))
 	case 3:
 		return reflect.PtrTo(randType(r, depth-1))
@@ -147,12 +151,34 @@ func fill(r *rand.Rand, v reflect.Value, depth int) {
 		for i := 0; i < r.Intn(4); i++ {
 			k := reflect.New(v.Type().Key()).Elem()
 			fill(r, k, 0)
-			if k.Kind() == reflect.String {
+			nan := r.Intn(3) == 0 // a key that is not equal to itself: every insertion makes a new entry
+			fl := float64(i) + 0.5
+			if nan {
+				fl = math.NaN()
+			}
+			switch {
+			case k.Kind() == reflect.String:
 				k.SetString(strings.Repeat("k", i))
-			} else if k.Kind() >= reflect.Int && k.Kind() <= reflect.Int64 {
+			case k.Kind() >= reflect.Int && k.Kind() <= reflect.Int64:
 				k.SetInt(int64(i))
-			} else {
+			case k.Kind() >= reflect.Uint && k.Kind() <= reflect.Uintptr:
 				k.SetUint(uint64(i))
+			case k.Kind() == reflect.Bool:
+				k.SetBool(i%2 == 0)
+			case k.Kind() == reflect.Float32 || k.Kind() == reflect.Float64:
+				k.SetFloat(fl)
+			case k.Kind() == reflect.Complex128:
+				k.SetComplex(complex(1, fl))
+			case k.Kind() == reflect.Array: // [2]float64
+				k.Index(0).SetFloat(float64(i))
+				k.Index(1).SetFloat(fl)
+			case k.Kind() == reflect.Struct: // keyRec
+				k.Field(0).SetInt(int64(i))
+				k.Field(1).SetFloat(fl)
+				k.Field(2).SetString(strings.Repeat("q", i))
+			case k.Kind() == reflect.Interface: // comparable dynamic values of several sizes
+				dyn := []interface{}{int8(i), "key" + strings.Repeat("k", i), fl, [2]float64{1, fl}, keyRec{int32(i), fl, "s"}, complex(float32(fl), 0), uint16(i)}
+				k.Set(reflect.ValueOf(dyn[r.Intn(len(dyn))]))
 			}
 			e := reflect.New(v.Type().Elem()).Elem()
 			fill(r, e, depth-1)
@@ -275,7 +301,30 @@ func linkedList(n int) *listNode {
 	return head
 }
 
+// a comparable struct usable as a map key; with F = NaN it is not equal to itself
+type keyRec struct {
+	A int32
+	F float64
+	S string
+}
+
 var namedValues = map[string]interface{}{
+	"float-key-map":   map[float64]int64{1.5: 7, 2.5: 8},
+	"nan-key-f64":     map[float64]int64{math.NaN(): 7},
+	"nan-key-f32-str": map[float32]string{float32(math.NaN()): "abcdefgh", 1: "x"},
+	"nan-keys-many": func() interface{} {
+		m := map[float64][]int32{}
+		for i := 0; i < 5; i++ {
+			m[math.NaN()] = []int32{1, 2, 3}
+		}
+		m[0] = nil
+		return m
+	}(),
+	"nan-key-iface":    map[interface{}]string{math.NaN(): "abcdefgh", "k": "v", int8(1): ""},
+	"nan-key-struct":   map[keyRec]*int64{{1, math.NaN(), "ab"}: sharedPtr, {1, 1, "ab"}: nil},
+	"nan-key-array":    map[[2]float64]int16{{0, math.NaN()}: 1, {0, 0}: 2},
+	"nan-key-complex":  map[complex128]interface{}{complex(math.NaN(), 0): int32(5), 1i: nil},
+	"nan-key-nested":   []interface{}{map[float64]map[float64]string{math.NaN(): {math.NaN(): "deep"}}, struct{ M map[float32]bool }{map[float32]bool{float32(math.NaN()): true}}},
 	"same-name-a":      sameNameA(),
 	"same-name-b":      sameNameB(),
 	"linked-list-100":  linkedList(100),
